@@ -154,6 +154,34 @@ EXTRA = [
 ]
 
 
+# the same lookup written as one dotted key and step by step must resolve alike
+DOTTED = [
+    ("dotted-key-through-rec", 'let n = 1; in { a = rec { n = 2; x = n; }; }\n', "a.x"),
+    ("dotted-key-through-plain", 'let n = 1; in { a = { n = 2; x = n; }; }\n', "a.x"),
+    ("dotted-key-through-let-value", 'let n = 1; in { a = let n = 3; in { x = n; }; }\n', "a.x"),
+]
+
+
+def eval_dotted(item):
+    from nix_manipulator import parse
+    from nix_manipulator.expressions.identifier import Identifier
+
+    name, text, key = item
+
+    def look(src, keys):
+        try:
+            ref = src
+            for k in keys:
+                ref = ref[k]
+            return ref.value.rebuild().strip() if isinstance(ref, Identifier) else ref.rebuild().strip()
+        except Exception as e:
+            return f"exc:{type(e).__name__}"
+
+    a = look(parse(text), [key])
+    b = look(parse(text), key.split("."))
+    return None if a == b else f"dotted-key-resolves-to:{a}-stepwise-to:{b}"
+
+
 def eval_extra(item):
     from nix_manipulator import parse
     from nix_manipulator.exceptions import ResolutionError
@@ -241,6 +269,7 @@ def run(tier, seed):
     with mp.get_context("fork").Pool(16) as pool:
         res = pool.map(_chunk, [c for c in chunks if c], chunksize=1)
         extra = pool.map(eval_extra, EXTRA, chunksize=1)
+        dotted = pool.map(eval_dotted, DOTTED, chunksize=1)
         hist = pool.apply(history_check, (500 if tier == "quick" else 3000,))
     n = sum(r[0] for r in res) + len(EXTRA)
     vio = {}
@@ -266,6 +295,11 @@ def run(tier, seed):
             sig = f"{sym}|{it[0]}"
             vio[sig] = dict(check="scoping-extra", signature=sig, what=f"C10 {sym}: {it[1]!r}", has_input=True, inputs={"name": it[0], "text": it[1]},
                             failing_input={"inputs": {"text": it[1]}, "observed": sym, "origin": "bounded enumeration"})
+    for it, sym in zip(DOTTED, dotted):
+        if sym:
+            sig = f"{sym}|{it[0]}"
+            vio[sig] = dict(check="scoping-dotted", signature=sig, what=f"C10 {sym}: {it[1]!r} key {it[2]}", has_input=True, inputs={"dotted": it[0], "text": it[1]},
+                            failing_input={"inputs": {"text": it[1], "key": it[2]}, "observed": sym, "origin": "bounded enumeration"})
     if hist[0]:
         vio["history"] = dict(check="history", signature="context-leak-between-documents", what=f"C10 {hist[0]} resolutions used a context of another document",
                               has_input=False, inputs={})
@@ -306,7 +340,9 @@ def replay(v):
         from bounded import livefresh
 
         return livefresh.replay("C10", v)
-    if "frames" in i:
+    if "dotted" in i:
+        sym = [eval_dotted(e) for e in DOTTED if e[0] == i["dotted"]][0]
+    elif "frames" in i:
         sym = eval_case((i["frames"], i["binds"]))
     else:
         sym = [eval_extra(e) for e in EXTRA if e[0] == i.get("name")][0]
